@@ -384,8 +384,7 @@ type recRepo struct {
 	lastOwner    map[string]string // entry id -> worker label holding the last successful claim
 	finalizedIds map[string]bool
 	current      map[string]string // worker label -> entry id it claimed last
-	lastUntil    map[string]time.Time
-	premature    map[string]bool // entry id -> taken over before its lease expired
+	premature    map[string]bool   // entry id -> taken over before its lease expired
 	prematureN   int64
 	nonOwnerFin  map[string]bool // entry id -> finalized by a worker that was not the claim holder
 	nonOwnerFinN int64
@@ -419,6 +418,12 @@ func short(id string) string {
 }
 
 func (r *recRepo) ClaimFirstPartOutboxEntry(ctx context.Context, tx *sql.Tx, outboxId string, owner string, now time.Time, claimUntil time.Time) (*partoutboxentry.Entity, bool, error) {
+	// what the table says about the head entry's claim before this attempt (same
+	// write transaction, so this is the committed state the claim CAS sees)
+	var prevId string
+	var prevOwner sql.NullString
+	var prevUntil sql.NullTime
+	_ = tx.QueryRowContext(ctx, "SELECT id, claim_owner, claim_until FROM part_outbox_entries WHERE outbox_id = $1 ORDER BY id ASC LIMIT 1", outboxId).Scan(&prevId, &prevOwner, &prevUntil)
 	e, claimed, err := r.Repository.ClaimFirstPartOutboxEntry(ctx, tx, outboxId, owner, now, claimUntil)
 	if err == nil && claimed && e != nil {
 		l := instLabel(ctx)
@@ -434,13 +439,13 @@ func (r *recRepo) ClaimFirstPartOutboxEntry(ctx context.Context, tx *sql.Tx, out
 		if prev != "" && prev != l {
 			r.takeovers++
 			ev = "takeover-of-" + prev
-			if until, ok := r.lastUntil[id]; ok && now.Before(until) {
-				r.premature[id] = true
-				r.prematureN++
-				ev = "premature-" + ev
-			}
 		}
-		r.lastUntil[id] = claimUntil
+		if prevId == id && prevOwner.Valid && prevOwner.String != owner && prevUntil.Valid && now.Before(prevUntil.Time) {
+			// the stored lease of another owner had not expired at the taker's own "now"
+			r.premature[id] = true
+			r.prematureN++
+			ev = "premature-" + ev
+		}
 		r.mu.Unlock()
 		r.c.logEvent(l, ev, part, e.Operation+" "+short(id))
 	}
@@ -493,7 +498,6 @@ func (r *recRepo) ExtendPartOutboxEntryClaim(ctx context.Context, tx *sql.Tx, ou
 		r.mu.Lock()
 		if ok {
 			r.heartbeats++
-			r.lastUntil[id.String()] = claimUntil
 		} else {
 			r.hbLost++
 		}
@@ -883,7 +887,7 @@ func execC18(spec c18Spec, dir string) *c18Outcome {
 		out.SetupErr = err.Error()
 		return out
 	}
-	c.repo = &recRepo{Repository: baseRepo, c: c, lastOwner: map[string]string{}, finalizedIds: map[string]bool{}, current: map[string]string{}, lastUntil: map[string]time.Time{}, premature: map[string]bool{}, nonOwnerFin: map[string]bool{}, entryPart: map[string]int{}}
+	c.repo = &recRepo{Repository: baseRepo, c: c, lastOwner: map[string]string{}, finalizedIds: map[string]bool{}, current: map[string]string{}, premature: map[string]bool{}, nonOwnerFin: map[string]bool{}, entryPart: map[string]int{}}
 	observer, err := c.newInner()
 	if err == nil {
 		err = observer.Start(context.Background())
